@@ -28,6 +28,36 @@ Theorem C16_fallback_event_iff_applied : forall pos cfg (inner : layer) c w,
 Proof. exact fallback_unhandled_passes_through. Qed.
 Print Assumptions C16_fallback_event_iff_applied.
 
+(* OnRateLimitExceeded fires exactly when the limiter refuses (any inner layer, any world): a granted permit -- waited for
+   to the end or interrupted by a cancellation -- adds no event of this layer *)
+Theorem C16_rate_limit_event_only_on_refusal : forall pos inst mw (inner : layer) c w,
+  let '(cfg, base, s) := nth inst (w_limiters w) (Smooth 1, 0, SSmooth 0) in
+  let '(wt, s') := lim_acquire cfg s (w_now w - base) 1 mw in
+  let w1 := set_insts w (w_breakers w) (upd inst (fun p => (fst p, s')) (w_limiters w)) (w_bulkheads w) (w_caches w) in
+  (wt = -1 -> limiter_layer pos inst mw inner c w = (failure_result ERate, stamp (emit w1 KRateExceeded pos (snapshot w1 c) 0) c))
+  /\ (wt <> -1 ->
+      snd (limiter_layer pos inst mw inner c w) =
+      if fst (wait w1 wt (Some c)) then snd (wait w1 wt (Some c)) else snd (inner c (snd (wait w1 wt (Some c))))).
+Proof. exact limiter_event_only_on_refusal. Qed.
+Print Assumptions C16_rate_limit_event_only_on_refusal.
+
+(* Finding F12 (repaired by a fix: commit): with the code as it was, a limiter wait interrupted by the cancellation of the
+   execution returned Execution.LastError(), the PREVIOUS attempt's error; after a refused attempt that stale error is
+   ErrExceeded and OnRateLimitExceeded fired although this attempt's permit had been granted.
+   Retry(3 retries, 2048 ns) around Bursty(1 per 16384 ns, max wait 10304 ns), caller cancels at 7000 ns:
+   refusals at 2048 and 4096 (events), the attempt at 6144 waits, and at 7000 the old code logged a third event. *)
+Theorem C16_rate_limit_event_without_refusal_before_fix :
+  let rc := {| r_fpol := build_fpolicy []; r_abort := []; r_max_retries := 3; r_max_duration := 0; r_return_last := false; r_delay := 2048 |} in
+  let lim := (Bursty 1 16384, 0, lim_init (Bursty 1 16384)) in
+  let script := [ {| fs_out := (0, Some (ESent 0)); fs_dur := 0; fs_coop := None; fs_lag := 0 |} ] in
+  let w0 := fresh_world 0 (Some (7000, ECtxCanceled)) CKNone [] [lim] [] [] script in
+  let events stale := map (fun e => e_time e)
+       (filter (fun e => match e_kind e with KRateExceeded => true | _ => false end)
+               (rev (w_trace (snd (fst (retry_loop 10 rc 0 (limiter_layer_gen stale 1 0 10304 (fn_layer 2)) 0%nat w0)))))) in
+  events true = [2048; 4096; 7000] /\ events false = [2048; 4096].
+Proof. vm_compute. auto. Qed.
+Print Assumptions C16_rate_limit_event_without_refusal_before_fix.
+
 (* breaker state-change events form a connected path from the initial state, specific listener then generic *)
 Theorem C16_breaker_events_form_path : forall S (I : stats_impl S) c h s,
   events_path (state_code s) (flat_map ob_events (brun I c s h)) = Some (state_code (bfinal I c s h)).
